@@ -524,6 +524,8 @@ String File::simplifyPath(const String& path)
       break;
     start = end + 1;
   }
+  if(result.isEmpty() && startsWithSlash)
+    result.append('/'); // the root directory
   return result;
 }
 
